@@ -166,7 +166,7 @@ package reclaimable
 //@     invariant forall a common_info.QueueID :: !(reclaimeeQueueID in queues && anc(reclaimeeQueueID, a)) || (ok && anc(queue.UID, a)) ==> (a in remainingResourcesMap) == old(a in remainingResourcesMap) && remainingResourcesMap[a] == old(remainingResourcesMap[a]) && remainingResourcesMap[a]["CPU"] == old(remainingResourcesMap[a]["CPU"]) && remainingResourcesMap[a]["Memory"] == old(remainingResourcesMap[a]["Memory"]) && remainingResourcesMap[a]["GPU"] == old(remainingResourcesMap[a]["GPU"])
 //@     invariant forall a common_info.QueueID :: old(a in remainingResourcesMap) ==> a in remainingResourcesMap && remainingResourcesMap[a] == old(remainingResourcesMap[a])
 //@     invariant forall a common_info.QueueID :: a in remainingResourcesMap && !old(a in remainingResourcesMap) ==> fresh(remainingResourcesMap[a])
-//@     invariant forall m rs.ResourceQuantities, k rs.ResourceName :: !fresh(m) && (forall a common_info.QueueID :: old(a in remainingResourcesMap) ==> old(remainingResourcesMap[a]) != m) ==> m[k] == old(m[k])
+//@     invariant forall m rs.ResourceQuantities, k rs.ResourceName :: !fresh(m) && (forall a common_info.QueueID :: old(a in remainingResourcesMap) ==> old(remainingResourcesMap[a]) != m) ==> m[k] == old(m[k]) && (k in m) == old(k in m)
 //@     invariant invOK(involvedResourcesByQueue)
 //@     invariant forall k rs.ResourceName :: (k in involvedResourcesByQueue[reclaimeeQueueID]) == old(k in involvedResourcesByQueue[reclaimeeQueueID])
 //@     invariant forall a common_info.QueueID :: reclaimeeQueueID in queues && anc(reclaimeeQueueID, a) && !(ok && anc(queue.UID, a)) ==> a in involvedResourcesByQueue
@@ -175,7 +175,7 @@ package reclaimable
 //@     invariant forall a common_info.QueueID, k rs.ResourceName :: !(reclaimeeQueueID in queues && anc(reclaimeeQueueID, a)) || (ok && anc(queue.UID, a)) ==> (k in old(involvedResourcesByQueue[a])) == old(k in involvedResourcesByQueue[a])
 //@     invariant forall a common_info.QueueID :: old(a in involvedResourcesByQueue) ==> a in involvedResourcesByQueue && involvedResourcesByQueue[a] == old(involvedResourcesByQueue[a])
 //@     invariant forall a common_info.QueueID :: a in involvedResourcesByQueue && !old(a in involvedResourcesByQueue) ==> fresh(involvedResourcesByQueue[a])
-//@     invariant forall m map[rs.ResourceName]any, k rs.ResourceName :: !fresh(m) && (forall a common_info.QueueID :: old(a in involvedResourcesByQueue) ==> old(involvedResourcesByQueue[a]) != m) ==> (k in m) == old(k in m)
+//@     invariant forall m map[rs.ResourceName]any, k rs.ResourceName :: !fresh(m) && (forall a common_info.QueueID :: old(a in involvedResourcesByQueue) ==> old(involvedResourcesByQueue[a]) != m) ==> (k in m) == old(k in m) && m[k] == old(m[k])
 //@     decreases ite(ok, rank(queue.UID) + 1, 0)
 //@   ensures remOK(remainingResourcesMap)
 //@   ensures [subCPU] forall a common_info.QueueID :: reclaimeeQueueID in queues && anc(reclaimeeQueueID, a) ==> a in remainingResourcesMap && remainingResourcesMap[a]["CPU"] == ite(old(a in remainingResourcesMap), old(remainingResourcesMap[a]["CPU"]), queues[a].CPU.Allocated) - qCpu(reclaimedResources)
@@ -184,13 +184,15 @@ package reclaimable
 //@   ensures [others] forall a common_info.QueueID :: !(reclaimeeQueueID in queues && anc(reclaimeeQueueID, a)) ==> (a in remainingResourcesMap) == old(a in remainingResourcesMap) && remainingResourcesMap[a] == old(remainingResourcesMap[a]) && remainingResourcesMap[a]["CPU"] == old(remainingResourcesMap[a]["CPU"]) && remainingResourcesMap[a]["Memory"] == old(remainingResourcesMap[a]["Memory"]) && remainingResourcesMap[a]["GPU"] == old(remainingResourcesMap[a]["GPU"])
 //@   ensures [kept] forall a common_info.QueueID :: old(a in remainingResourcesMap) ==> a in remainingResourcesMap && remainingResourcesMap[a] == old(remainingResourcesMap[a])
 //@   ensures [new] forall a common_info.QueueID :: a in remainingResourcesMap && !old(a in remainingResourcesMap) ==> fresh(remainingResourcesMap[a])
-//@   ensures [rqframe] forall m rs.ResourceQuantities, k rs.ResourceName :: !fresh(m) && (forall a common_info.QueueID :: old(a in remainingResourcesMap) ==> old(remainingResourcesMap[a]) != m) ==> m[k] == old(m[k])
+//@   ensures [rqframe] forall m rs.ResourceQuantities, k rs.ResourceName :: !fresh(m) && (forall a common_info.QueueID :: old(a in remainingResourcesMap) ==> old(remainingResourcesMap[a]) != m) ==> m[k] == old(m[k]) && (k in m) == old(k in m)
 //@   ensures invOK(involvedResourcesByQueue)
-//@   ensures [invAnc] forall a common_info.QueueID, k rs.ResourceName :: reclaimeeQueueID in queues && anc(reclaimeeQueueID, a) ==> a in involvedResourcesByQueue && ((k in involvedResourcesByQueue[a]) == (old(k in involvedResourcesByQueue[a]) || old(k in involvedResourcesByQueue[reclaimeeQueueID])))
-//@   ensures [invOthers] forall a common_info.QueueID, k rs.ResourceName :: !(reclaimeeQueueID in queues && anc(reclaimeeQueueID, a)) ==> (a in involvedResourcesByQueue) == old(a in involvedResourcesByQueue) && involvedResourcesByQueue[a] == old(involvedResourcesByQueue[a]) && (k in involvedResourcesByQueue[a]) == old(k in involvedResourcesByQueue[a])
+//@   ensures [invAncIn] forall a common_info.QueueID :: reclaimeeQueueID in queues && anc(reclaimeeQueueID, a) ==> a in involvedResourcesByQueue
+//@   ensures [invAnc] forall a common_info.QueueID, k rs.ResourceName :: reclaimeeQueueID in queues && anc(reclaimeeQueueID, a) ==> ((k in involvedResourcesByQueue[a]) == (old(k in involvedResourcesByQueue[a]) || old(k in involvedResourcesByQueue[reclaimeeQueueID])))
+//@   ensures [invOthers] forall a common_info.QueueID :: !(reclaimeeQueueID in queues && anc(reclaimeeQueueID, a)) ==> (a in involvedResourcesByQueue) == old(a in involvedResourcesByQueue) && involvedResourcesByQueue[a] == old(involvedResourcesByQueue[a])
+//@   ensures [invOthersSets] forall a common_info.QueueID, k rs.ResourceName :: !(reclaimeeQueueID in queues && anc(reclaimeeQueueID, a)) ==> (k in involvedResourcesByQueue[a]) == old(k in involvedResourcesByQueue[a])
 //@   ensures [invKept] forall a common_info.QueueID :: old(a in involvedResourcesByQueue) ==> a in involvedResourcesByQueue && involvedResourcesByQueue[a] == old(involvedResourcesByQueue[a])
 //@   ensures [invNew] forall a common_info.QueueID :: a in involvedResourcesByQueue && !old(a in involvedResourcesByQueue) ==> fresh(involvedResourcesByQueue[a])
-//@   ensures [invFrame] forall m map[rs.ResourceName]any, k rs.ResourceName :: !fresh(m) && (forall a common_info.QueueID :: old(a in involvedResourcesByQueue) ==> old(involvedResourcesByQueue[a]) != m) ==> (k in m) == old(k in m)
+//@   ensures [invFrame] forall m map[rs.ResourceName]any, k rs.ResourceName :: !fresh(m) && (forall a common_info.QueueID :: old(a in involvedResourcesByQueue) ==> old(involvedResourcesByQueue[a]) != m) ==> (k in m) == old(k in m) && m[k] == old(m[k])
 //@ end
 
 // ---- boundaries of the reclaiming queues ---------------------------------------------------------
@@ -240,5 +242,96 @@ package reclaimable
 //@     invariant forall s in visited :: forall q common_info.QueueID :: q == reclaimingQueue.UID && old(sibOf(queues, remainingResourcesMap, q, s)) ==> old(lvlOK(queues, remainingResourcesMap, involvedResourcesByQueue, r, reclaimer.RequiredResources, q, s))
 //@   ensures [boundaries] result ==> (forall q common_info.QueueID, s common_info.QueueID :: reclaimer.Queue in queues && anc(reclaimer.Queue, q) && old(sibOf(queues, remainingResourcesMap, q, s)) ==> old(lvlOK(queues, remainingResourcesMap, involvedResourcesByQueue, r, reclaimer.RequiredResources, q, s)))
 //@   ensures [nonPreemptible] result && !reclaimer.IsPreemptable ==> (forall q common_info.QueueID :: reclaimer.Queue in queues && anc(reclaimer.Queue, q) ==> nonPreemptWithinDeserved(queues[q], reclaimer.RequiredResources))
+//@   ensures [caches] cachesOK(queues)
 //@   ensures [complete] !result ==> !((forall q common_info.QueueID, s common_info.QueueID :: reclaimer.Queue in queues && anc(reclaimer.Queue, q) && old(sibOf(queues, remainingResourcesMap, q, s)) ==> old(lvlOK(queues, remainingResourcesMap, involvedResourcesByQueue, r, reclaimer.RequiredResources, q, s))) && (!reclaimer.IsPreemptable ==> (forall q common_info.QueueID :: reclaimer.Queue in queues && anc(reclaimer.Queue, q) ==> nonPreemptWithinDeserved(queues[q], reclaimer.RequiredResources))))
+//@ end
+
+// ---- victims, one by one -------------------------------------------------------------------------
+// Trigger function for quantified slice facts: `s[i]` is encoded as cell(arr, off + i), and E-matching does not
+// instantiate i := rangeindex + 1 through that arithmetic; at(i) (the identity) gives the solver an arithmetic-free
+// pattern. The axiom is the definition of at.
+//@ declare at(i int) int
+//@ axiom forall x int :: at(x) == x
+//@ declare isQ(e common_info.QueueID) bool
+//@ axiom forall e common_info.QueueID :: isQ(e)
+// every victim of every reclaimee queue is a non-nil resource (the caller, proportion.reclaimableFn, only appends non-nil ones)
+//@ define victimsOK(vm map[common_info.QueueID][]*ri.Resource) bool = forall e in vm :: isQ(e) ==> (forall i int :: 0 <= i && i < len(vm[e]) ==> (at(i) == i ==> vm[e][i] != nil))
+
+// scalar form of the strategies' decision (strategies.FitsReclaimStrategy ensures) on a remaining share (c, m, g)
+//@ define overAllocS(q *rs.QueueAttributes, c real, m real, g real) bool = !(rs.leq(c, rs.allocatable(q.CPU)) && rs.leq(m, rs.allocatable(q.Memory)) && rs.leq(g, rs.allocatable(q.GPU)))
+//@ define overDesS(q *rs.QueueAttributes, c real, m real, g real) bool = !(rs.leq(c, q.CPU.Deserved) && rs.leq(m, q.Memory.Deserved) && rs.leq(g, q.GPU.Deserved))
+//@ define fitsS(res *ri.Resource, rq *rs.QueueAttributes, eq *rs.QueueAttributes, c real, m real, g real) bool = overAllocS(eq, c, m, g) || (strategies.reclaimerWithinQuota(res, rq) && overDesS(eq, c, m, g))
+
+// C07: "resources are taken only from queues above their deserved quota or above their fair share ... (remaining share
+// shrinks victim by victim)". What is proved here: [lastCheck] (inner loop invariant) every subtraction was preceded by
+// a successful strategy decision on the share that remained BEFORE it, taken at the divergence level ([divergenceLevel]),
+// on the very object that the subtraction then updates; a failed decision returns (false, nil, nil) immediately; on
+// success the two maps satisfy the preconditions of reclaimingQueuesRemainWithinBoundaries. The closed form
+// remaining[q] = allocated(q) - sum of the victims under q is NOT stated (needs sums over a map of slices).
+//@ func (*Reclaimable).reclaimResourcesFromReclaimees
+//@   props C07 C10
+//@   requires reclaimer != nil && reclaimer.RequiredResources != nil && reclaimer.Queue in queues
+//@   requires treeOK(queues) && cachesOK(queues)
+//@   requires forall e in reclaimeesResourcesByQueue :: e in queues && len(reclaimeesResourcesByQueue[e]) >= 1
+//@   requires victimsOK(reclaimeesResourcesByQueue)
+//@   modifies family(queues[reclaimer.Queue].lastFairShare), family(queues[reclaimer.Queue].lastDeservedShare)
+//@   loop 1
+//@     invariant remainingResourcesMap != nil && involvedResourcesByQueue != nil && fresh(remainingResourcesMap) && fresh(involvedResourcesByQueue)
+//@     invariant remOK(remainingResourcesMap) && invOK(involvedResourcesByQueue)
+//@     invariant cachesOK(queues) && cachesApart(queues, remainingResourcesMap)
+//@     invariant forall s in remainingResourcesMap :: s in queues && fresh(remainingResourcesMap[s])
+//@     invariant forall s in involvedResourcesByQueue :: fresh(involvedResourcesByQueue[s])
+//@     invariant forall s common_info.QueueID, k rs.ResourceName :: s in involvedResourcesByQueue && k in involvedResourcesByQueue[s] ==> k == "CPU" || k == "Memory" || k == "GPU"
+//@     invariant forall m rs.ResourceQuantities, k rs.ResourceName :: !fresh(m) ==> m[k] == old(m[k]) && (k in m) == old(k in m)
+//@     invariant forall m map[rs.ResourceName]any, k rs.ResourceName :: !fresh(m) ==> (k in m) == old(k in m) && m[k] == old(m[k])
+//@     invariant forall m map[common_info.QueueID]rs.ResourceQuantities, k common_info.QueueID :: !fresh(m) ==> (k in m) == old(k in m) && m[k] == old(m[k])
+//@     invariant forall m map[common_info.QueueID]map[rs.ResourceName]any, k common_info.QueueID :: !fresh(m) ==> (k in m) == old(k in m) && m[k] == old(m[k])
+//@     invariant forall s in remainingResourcesMap :: s in involvedResourcesByQueue
+//@   loop 2
+//@     invariant remainingResourcesMap != nil && involvedResourcesByQueue != nil && fresh(remainingResourcesMap) && fresh(involvedResourcesByQueue)
+//@     invariant remOK(remainingResourcesMap) && invOK(involvedResourcesByQueue)
+//@     invariant cachesOK(queues) && cachesApart(queues, remainingResourcesMap)
+//@     invariant forall s in remainingResourcesMap :: s in queues && fresh(remainingResourcesMap[s])
+//@     invariant forall s in involvedResourcesByQueue :: fresh(involvedResourcesByQueue[s])
+//@     invariant forall s common_info.QueueID, k rs.ResourceName :: s in involvedResourcesByQueue && k in involvedResourcesByQueue[s] ==> k == "CPU" || k == "Memory" || k == "GPU"
+//@     invariant forall m rs.ResourceQuantities, k rs.ResourceName :: !fresh(m) ==> m[k] == old(m[k]) && (k in m) == old(k in m)
+//@     invariant forall m map[rs.ResourceName]any, k rs.ResourceName :: !fresh(m) ==> (k in m) == old(k in m) && m[k] == old(m[k])
+//@     invariant forall m map[common_info.QueueID]rs.ResourceQuantities, k common_info.QueueID :: !fresh(m) ==> (k in m) == old(k in m) && m[k] == old(m[k])
+//@     invariant forall m map[common_info.QueueID]map[rs.ResourceName]any, k common_info.QueueID :: !fresh(m) ==> (k in m) == old(k in m) && m[k] == old(m[k])
+//@     invariant 0 - 1 <= rangeindex && rangeindex < len(reclaimeeQueueReclaimedResources)
+//@     invariant reclaimeeQueueID in reclaimeesResourcesByQueue && len(reclaimeeQueueReclaimedResources) == len(reclaimeesResourcesByQueue[reclaimeeQueueID])
+//@     invariant forall i int :: 0 <= i && i < len(reclaimeeQueueReclaimedResources) ==> (at(i) == i ==> reclaimeeQueueReclaimedResources[i] == reclaimeesResourcesByQueue[reclaimeeQueueID][i])
+//@     invariant isQ(reclaimeeQueueID) && (forall i int :: 0 <= i && i < len(reclaimeesResourcesByQueue[reclaimeeQueueID]) ==> (at(i) == i ==> reclaimeesResourcesByQueue[reclaimeeQueueID][i] != nil))
+//@     invariant forall i int :: 0 <= i && i < len(reclaimeeQueueReclaimedResources) ==> (at(i) == i ==> reclaimeeQueueReclaimedResources[i] != nil)   // at(i) is the E-matching trigger, see `declare at`
+//@     invariant rangeindex + 1 < len(reclaimeeQueueReclaimedResources) ==> at(rangeindex + 1) == rangeindex + 1 && reclaimeeQueueReclaimedResources[rangeindex + 1] != nil
+//@     invariant len(reclaimeeQueueReclaimedResources) >= 1
+//@     invariant reclaimerQueue != nil && reclaimeeQueue != nil && queues[reclaimeeQueue.UID] == reclaimeeQueue && reclaimeeQueue.UID in queues && queues[reclaimerQueue.UID] == reclaimerQueue && reclaimerQueue.UID in queues && reclaimeeQueueID in queues && anc(reclaimeeQueueID, reclaimeeQueue.UID)
+//@     invariant reclaimeeQueue.UID in remainingResourcesMap && remainingResources == remainingResourcesMap[reclaimeeQueue.UID] && reclaimeeQueueID in involvedResourcesByQueue
+//@     invariant [divergenceLevel] anc(reclaimer.Queue, reclaimerQueue.UID) && (reclaimerQueue.UID != reclaimeeQueue.UID ==> sameParent(queues, reclaimerQueue, reclaimeeQueue)) && (reclaimerQueue.UID == reclaimeeQueue.UID ==> reclaimerQueue == reclaimeeQueue && (reclaimerQueue == queues[reclaimer.Queue] || reclaimerQueue == queues[reclaimeeQueueID]))
+//@     invariant forall s in remainingResourcesMap :: s in involvedResourcesByQueue || (rangeindex < 0 && s == reclaimeeQueue.UID)
+//@     invariant [lastCheck] rangeindex >= 0 ==> fitsS(reclaimer.RequiredResources, reclaimerQueue, reclaimeeQueue, remainingResources["CPU"] + qCpu(reclaimeeQueueReclaimedResources[rangeindex]), remainingResources["Memory"] + qMem(reclaimeeQueueReclaimedResources[rangeindex]), remainingResources["GPU"] + qGpu(reclaimeeQueueReclaimedResources[rangeindex]))
+//@     decreases len(reclaimeeQueueReclaimedResources) - rangeindex
+//@   ensures [failFast] !result0 ==> result1 == nil && result2 == nil
+//@   ensures [maps] result0 ==> result1 != nil && result2 != nil && remOK(result1) && invOK(result2)
+//@   ensures [caches] cachesOK(queues) && (result0 ==> cachesApart(queues, result1))
+//@   ensures [keys] result0 ==> (forall s in result1 :: s in queues && s in result2 && result2[s] != nil && onlyNames(result2[s]))
+//@ end
+
+// ---- the validator -------------------------------------------------------------------------------
+// C07 (composition): victims are accepted one by one by the strategy (reclaimResourcesFromReclaimees, [lastCheck] /
+// [divergenceLevel]) and then the saturation ordering and the non-preemptible bound are checked at every ancestor level of the
+// reclaimer (reclaimingQueuesRemainWithinBoundaries). Stated on the inputs here: "a non-preemptible reclaimer keeps its
+// queue's non-preemptible allocation within deserved quota", at every level of the hierarchy. The saturation clause is a
+// statement about the internal remaining-share map and is the postcondition [boundaries] of
+// reclaimingQueuesRemainWithinBoundaries; its closed form over the victims needs sums over a map of slices (not stated).
+//@ func (*Reclaimable).Reclaimable
+//@   props C07 C10
+//@   ieee
+//@   requires r != nil && reclaimer != nil && reclaimer.RequiredResources != nil && reclaimer.Queue in queues
+//@   requires treeOK(queues) && cachesOK(queues)
+//@   requires forall e in reclaimeeResourcesByQueue :: e in queues && len(reclaimeeResourcesByQueue[e]) >= 1
+//@   requires victimsOK(reclaimeeResourcesByQueue)
+//@   modifies family(queues[reclaimer.Queue].lastFairShare), family(queues[reclaimer.Queue].lastDeservedShare), family(queues[reclaimer.Queue].lastFairShare[*])
+//@   ensures [nonPreemptible] result && !reclaimer.IsPreemptable ==> (forall q common_info.QueueID :: anc(reclaimer.Queue, q) ==> nonPreemptWithinDeserved(queues[q], reclaimer.RequiredResources))
+//@   ensures [caches] cachesOK(queues)
 //@ end
